@@ -33,17 +33,18 @@ const (
 
 // Op is one logged transport call.
 type Op struct {
-	Kind     string
-	In, Out  uint64 // logical ticks at entry and exit (Out == 0 while in progress)
-	Data     []byte // copy of the bytes handed over (Write/Writev)
-	Parts    int    // number of slices in a Writev
-	PartLens []int  // length of each slice
-	Err      error
-	Rejected bool  // the call was refused because the transport is closed or a fault was injected
-	Start    int   // offset of Data in the wire stream (accepted data only)
-	InWrite  int32 // for Close: number of Write/Writev calls in progress at that moment
-	Unflush  int   // for Close: bytes written and not yet flushed at that moment
-	WallIn   time.Time
+	Kind       string
+	In, Out    uint64 // logical ticks at entry and exit (Out == 0 while in progress)
+	Data       []byte // copy of the bytes handed over (Write/Writev)
+	Parts      int    // number of slices in a Writev
+	PartLens   []int  // length of each slice
+	Err        error
+	Rejected   bool  // the call was refused because the transport is closed or a fault was injected
+	Start      int   // offset of Data in the wire stream (accepted data only)
+	InWrite    int32 // for Close: number of Write/Writev calls in progress at that moment
+	AfterClose bool  // accepted although the transport had been closed (lenient transport)
+	Unflush    int   // for Close: bytes written and not yet flushed at that moment
+	WallIn     time.Time
 }
 
 // Addr is a fake net.Addr.
@@ -90,11 +91,16 @@ type RecTransport struct {
 	Terminal     error // error returned after the script is exhausted; nil = block until Close
 	fed          chan struct{}
 	readOff      int64 // bytes delivered so far
+	inRead       int
 	maxReadChunk int
 
 	// OnOp, if set, is called outside the lock at entry (phase 0) and exit
 	// (phase 1) of Write/Writev/Flush/Close: perturbation and gates.
 	OnOp func(kind string, phase int)
+
+	// AcceptAfterClose: a lenient transport that keeps accepting Write/Writev/Flush after Close
+	// (nothing in the transport interface obliges it to fail); Close is still recorded.
+	AcceptAfterClose bool
 
 	// Consume mimics net.Buffers.WriteTo, which nils the entries of the slice
 	// it was given (default true).
@@ -144,7 +150,7 @@ func (t *RecTransport) write(kind string, bufs [][]byte) (int64, error) {
 		n += int64(len(b))
 	}
 	var err error
-	if t.closed {
+	if t.closed && !t.AcceptAfterClose {
 		err = net.ErrClosed
 		op.Rejected = true
 	} else if ferr := t.faultFor(kind); ferr != nil {
@@ -159,6 +165,7 @@ func (t *RecTransport) write(kind string, bufs [][]byte) (int64, error) {
 	}
 	op.Data = data
 	op.Err = err
+	op.AfterClose = t.closed
 	if err == nil {
 		op.Start = len(t.wire)
 		t.wire = append(t.wire, data...)
@@ -200,7 +207,7 @@ func (t *RecTransport) Flush() error {
 	}
 	t.mu.Lock()
 	op := Op{Kind: OpFlush, In: Tick()}
-	if t.closed {
+	if t.closed && !t.AcceptAfterClose {
 		op.Err = net.ErrClosed
 		op.Rejected = true
 	} else if ferr := t.faultFor(OpFlush); ferr != nil {
@@ -322,8 +329,17 @@ func (t *RecTransport) Read(p []byte) (int, error) {
 		if t.Terminal != nil {
 			return 0, t.Terminal
 		}
+		t.inRead++
 		t.cond.Wait()
+		t.inRead--
 	}
+}
+
+// InRead is the number of Read calls currently parked waiting for data.
+func (t *RecTransport) InRead() int {
+	t.mu.Lock()
+	defer t.mu.Unlock()
+	return t.inRead
 }
 
 // ReadOffset returns the number of bytes handed out by Read so far.
